@@ -202,6 +202,41 @@ def replay_spec(ctx, witness):
     return C.replay_spec_generic(ctx, witness)
 
 
+def check_guard_boundary(acc, wd, mon):
+    """Inputs whose element counter sits at the decoder's array guard: 65535 and 65536 real elements are read back
+    (and then have to encode again, fixpoint), 65537 are refused with ProphyError; truncations of the big inputs too."""
+    from .. import pyrt
+    M = S.Member
+    sch = S.Schema([S.Struct('GB1', [M('x', 'u8', S.DYNAMIC)]),
+                    S.Struct('GB2', [M('n', 'u32'), M('a', 'u16', S.EXT, sizer='n'), M('b', 'byte', S.EXT, sizer='n'),
+                                     M('t', 'u8')]),
+                    S.Struct('GBE', [M('a', 'u8'), M('b', 'u8')]),
+                    S.Struct('GB3', [M('n', 'i64'), M('e', 'GBE', S.EXT, sizer='n')]),
+                    S.Struct('GB4', [M('b', 'byte', S.DYNAMIC), M('t', 'u16')]),
+                    S.Struct('GB5', [M('k', 'u8'), M('v', 'u64', S.LIMITED, 70000)])])
+    try:
+        mod, nodes = pyrt.compile_python(sch.to_prophy(), wd)
+    except pyrt.CompileFailed as e:
+        acc.prereq({'stage': e.stage, 'error': str(e)[:300]})
+        return
+    w = W.Wire(sch)
+    for n in (65535, 65536, 65537):
+        vals = {'GB1': {'x': [7] * n}, 'GB2': {'a': [0x1234] * n, 'b': b'\x5a' * n, 't': 9},
+                'GB3': {'e': [{'a': 1, 'b': 2}] * n}, 'GB4': {'b': b'\xa5' * n, 't': 3}, 'GB5': {'k': 1, 'v': [5] * n}}
+        for tname, v in sorted(vals.items()):
+            for e in '<>':
+                data, spans = w.encode(tname, v, e)
+                base = {'schema_json': sch.to_json(), 'schema': sch.to_prophy(), 'type': tname,
+                        'value': 'every array of %d elements' % n}
+                acc.count('guard_boundary_inputs')
+                check_input(acc, sch, w, mod, mon, tname, e, 'guard-boundary', 'count-%d' % n, data,
+                            static_cost(w, sch, tname), base)
+                if n == 65536:
+                    for cut in (len(data) - 1, len(data) // 2):
+                        check_input(acc, sch, w, mod, mon, tname, e, 'guard-boundary', 'count-%d cut at %d' % (n, cut),
+                                    data[:cut], static_cost(w, sch, tname), base)
+
+
 def run_shard(spec):
     acc = Acc()
     tracemalloc.start()
@@ -209,6 +244,11 @@ def run_shard(spec):
     quick = spec.get('nrand', 1) <= 1
     try:
         with C.Workdir() as wd:
+            if (spec.get('seed', 1) % 1000 == 0 and spec['kind'] != 'replay') or \
+                    (spec['kind'] == 'replay' and spec['extra'].get('family') == 'guard-boundary'):
+                check_guard_boundary(acc, wd, mon)
+                if spec['kind'] == 'replay':
+                    return acc.done()
             for sch, names, tagmap, mod, nodes, rng in C.iter_py_schemas(spec, acc, wd):
                 w = W.Wire(sch)
                 if spec['kind'] == 'seq':
@@ -255,7 +295,7 @@ def run_shard(spec):
 
 def finish(ctx, merged, specs):
     need = ['family:prefix', 'family:control', 'family:bitflip', 'family:extend', 'family:random', 'accepted',
-            'rejected_with_ProphyError', 'fixpoints_checked']
+            'rejected_with_ProphyError', 'fixpoints_checked', 'guard_boundary_inputs']
     missing = [f for f in need if not merged['counters'].get(f)]
     if missing and not merged['inconclusive'] and specs and specs[0]['kind'] != 'replay':
         merged['inconclusive'] = 'coverage floor not met: %s' % missing
